@@ -52,7 +52,7 @@ CLAIMS["C08"] = (
 )
 
 CLAIMS["C12"] = (
-    "own-arithmetic evaluation of two-block histories (single-symbol blocks, integer-typed bits) with module helpers followed, structural dataflow rules (Bernoulli idiom, masked stores), finite truth-table evaluation of the {0,1}/{-1,+1} maps, may-alias/effect analysis",
+    "draw-precision lint on every rand_like of the binary channels, chunk-cover lint on blocked loops of the channels and their helpers; own-arithmetic evaluation of two-block histories (single-symbol blocks, integer-typed bits) with module helpers followed, structural dataflow rules (Bernoulli idiom, masked stores), finite truth-table evaluation of the {0,1}/{-1,+1} maps, may-alias/effect analysis",
     "Binary symmetric / erasure / Z channels: every flip/erase indicator is `U < p` with U from rand/rand_like and p the configured, validated probability (strictness and direction checked, so p = 0 is the identity and p = 1 the extreme); the BSC output expression has the XOR truth table over {0,1}^2; Z-channel stores are masked by x == 1 and write where(event, 0, old); BEC stores only the erasure symbol under the erase mask into a clone; the bipolar conversions map -1/+1 to 0/1 and back under one flag; an alias/effect analysis shows no write reaches storage shared with the input. Decides the support/transition structure for every input; rates and independence are statistics and are not decided. Since seed round 6 the transition clause is decided first by evaluating forward (own arithmetic, class helpers followed, constructor attributes carried from call to call) on two-block histories - {0,1} and -1/+1 blocks in every order on one object, p = 0, 0.5, 1, fixed table of uniform draws, both exact spellings U < p / U >= 1 - p; the spelling rules are the fallback.",
     "Trusted: torch.rand* samples lie in [0,1); clone()/arithmetic allocate, float()/view/indexing may alias; closed forms listed in props/c12.py.",
     "DESIGN.md §2 C12",
@@ -73,7 +73,7 @@ CLAIMS["C06"] = (
 )
 
 CLAIMS["C14"] = (
-    "constant folding of literal tables + own validators (bijection, energy, nearest-neighbour Gray adjacency); geometry of the evaluated PSK / DPSK / PAM tables (distinct, equally spaced); recognition of label generator / position permutation of generated tables with own arithmetic over all orders; closed forms",
+    "QAM constructor evaluated with all Gray helpers of the utilities followed; constant folding of literal tables + own validators (bijection, energy, nearest-neighbour Gray adjacency); geometry of the evaluated PSK / DPSK / PAM tables (distinct, equally spaced); recognition of label generator / position permutation of generated tables with own arithmetic over all orders; closed forms",
     "Literal constellations (BPSK, QPSK, OQPSK, pi/4-QPSK in both rotations and labellings, with and without normalisation) are extracted from the syntax tree by constant folding and validated by the checker: 2^b distinct points, labels a bijection, unit average energy, one-bit difference between all nearest neighbours where Gray labelling is promised, and a common pi/4 rotation between the two pi/4-QPSK constellations. For PSK/DPSK/PAM/QAM the label generator and the position permutation are recognised from the construction code and their composition is decided to be bijective and Gray along physical neighbours for every supported order. Normalisation must be division by sqrt(mean|c|^2) on every configuration path; the Gray utilities must have the closed forms valid for all non-negative integers (bounded log-step variants rejected), array forms elementwise. Decides the tables for all orders/options, exactly; custom user constellations are not covered.",
     "Trusted: constfold.py (own evaluation of literal arithmetic), the recognisers of the construction loops (unknown shapes -> exit 2).",
     "DESIGN.md §2 C14",
@@ -86,7 +86,7 @@ CLAIMS["C01"] = (
     "DESIGN.md §2 C01",
 )
 CLAIMS["C04"] = (
-    "whole-function own-arithmetic evaluation of inverse_encode (three codes, one with a dependent parity-check row; 1-D to 3-D layouts; invalid length), verified-return rule on the right-inverse helper, operand analysis of inverse_encode (fallback), block-reshape rules (apply_blockwise and the Hamming / Reed-Muller overrides)",
+    "whole-function own-arithmetic evaluation of the Reed-Muller inverse on RM(1,3) and RM(2,4); whole-function own-arithmetic evaluation of inverse_encode (three codes, one with a dependent parity-check row; 1-D to 3-D layouts; invalid length), verified-return rule on the right-inverse helper, operand analysis of inverse_encode (fallback), block-reshape rules (apply_blockwise and the Hamming / Reed-Muller overrides)",
     "Decides structural necessary conditions of 'inverse(encode(m)) = m': every return of compute_right_pseudo_inverse is exact (identity-prefix selection under its own test, GF(2) elimination result with rank check) or verified on the returned object - rounded real pseudo-inverses, shape-keyed constants and fallbacks are violations; systematic encoders register the selection matrix of their information set after the parent constructor; inverse_encode multiplies blocks of n by generator_right_inverse mod 2 and returns the syndrome of the same input; extract_message and project_word delegate / select per block; apply_blockwise asserts divisibility, views (*lead, L//b, b) and flattens back to (*lead, -1); the Hamming and Reed-Muller inverse overrides keep (-1, n) rows and (*lead, -1) results and validate the length. The round trip as a value identity for arbitrary G is not decided.",
     "Trusted: recognisers in props/c04.py (unknown shapes -> exit 2).",
     "DESIGN.md §2 C04",
@@ -100,14 +100,14 @@ CLAIMS["C03"] = (
 )
 
 CLAIMS["C02"] = (
-    "narrow-integer-dtype lint on the message enumeration, special-case lint with input/row-index taint, loop-bound and insertion-guard recognisers (coset-leader minimality), closed forms of the ML decision and of the Berlekamp-Massey / Chien / Hamming steps",
+    "early-exit lint of complete searches against the unique-decoding radius, Reed-Muller inverse evaluated as a whole (RM(1,3), RM(2,4)); narrow-integer-dtype lint on the message enumeration, special-case lint with input/row-index taint, loop-bound and insertion-guard recognisers (coset-leader minimality), closed forms of the ML decision and of the Berlekamp-Massey / Chien / Hamming steps",
     "Structural necessary conditions of 'hard-decision decoders correct <= t errors / complete decoders are ML': no decoder or encoder inverse branches on equality of the syndrome, the received length, the field size or the batch row index with a literal (row index only as subscript); the syndrome table is built by ascending weight over exhaustive supports with first-come insertion from the decoder's own encoder, corrections XOR the leader and messages are extracted by the encoder; the brute-force decoder enumerates all 2^k messages through the encoder and takes the argmin Hamming distance with message and codeword at the same index; Berlekamp-Massey takes t and the field from the encoder, evaluates S_1..S_2t, searches all n positions and flips exactly the located bits; the Hamming inverse locates the check-matrix column equal to the syndrome. Whether the algebraic algorithms actually correct every pattern of weight <= t is behaviour over field values and is not decided (the Reed-Muller majority decoder is a placeholder). The syndrome-lookup decoder's forward is evaluated on every codeword of the (7,4) Hamming code with 0 / 1 flipped bit, the Berlekamp-Massey decoder's forward over GF(16) on codewords of the (15,7) BCH code with 0, 1, 2 flipped bits, the error-pattern generator for n = 4..6 and every weight.",
     "Trusted: recognisers in props/c02.py (unknown shapes -> exit 2).",
     "DESIGN.md §2 C02",
 )
 
 CLAIMS["C11"] = (
-    "table validation against an independent copy of the 5G reliability sequence (+ permutation / dominance), closed forms and truth tables of the SC f/g/partial-sum functions, frozen-value selector agreement (sibling rule + polarity engine) and boolean typing of the frozen-position mask",
+    "sibling-agreement evaluation of the stage table shared between encoder and BP decoder (MASK-LAYOUT); table validation against an independent copy of the 5G reliability sequence (+ permutation / dominance), closed forms and truth tables of the SC f/g/partial-sum functions, frozen-value selector agreement (sibling rule + polarity engine) and boolean typing of the frozen-position mask",
     "Polar codes: kernel literal and number of Kronecker steps; the reliability table file is parsed by the checker and must be a permutation of 0..1023, respect bitwise-subset dominance and equal the TS 38.212 sequence entry by entry; the frozen set is the first N-k ranked positions below N and user masks are validated; encoder, SC leaf and polar-BP initialisation agree on the frozen value (BP: +clip for a frozen 0, by the library's LLR polarity); the SC recursion has the textbook shape (f by regime, g = y2 + (1-2x) y1 un-saturated, partial sums (x1 xor x2, x2), consistent half / even-odd splits, helper closed forms). The encoder's transform is tabulated (own arithmetic) on every unit vector for N = 2..32 against u F^(x)m, columns bit-reversed for the interleaved variant, and the per-block encoder on every message for N = 4, 8 (both frozen values, both variants); the polar BP decoder keeps the answers of words that passed the stop criterion outside the re-initialised graph. SC decisions as values for arbitrary LLRs and BP convergence are not decided.",
     "Trusted: /verif/fixtures/ts38212_polar_sequence.txt (an independent copy of TS 38.212 Table 5.3.1.2-1; it agrees entry by entry with the repository's table on the pinned tree), recognisers in props/c11.py.",
     "DESIGN.md §2 C11",
